@@ -71,6 +71,9 @@ class Corrupt(Machine):
                  "inspect.stack / inspect.getframeinfo (two-frame fast version; text of DEBUG log lines only)"],
     }
     assumptions = [
+        "growth along the size dimension (n, 2n, 4n entries) is judged on process CPU time with a wide margin (ratio >= 9 "
+        "and >= 1 CPU second), because list/dict work inside the interpreter's C code produces no line events; this "
+        "measurement is excluded from the run digest",
         "step bound is interpreter LINE events (sys.monitoring), calibrated at 50x the worst uncorrupted parse of the "
         "same run scaled by input length; C-level work inside cbor2 is covered only by the wall-clock watchdog and "
         "the memory bound",
@@ -132,6 +135,9 @@ class Corrupt(Machine):
                     count = s.choice([20, 40, 80]) if tier == "quick" else s.choice([100, 300, 600])
                 ops.append({"kind": "sweep", "i": len(ops), "env": f"env{e}", "family": fam, "count": count,
                             "gen": s.u64() % (1 << 48)})
+            if swarm["fast_stack"] and s.chance(0.5 if tier == "quick" else 0.8):
+                ops.append({"kind": "growth_scaling", "i": len(ops), "env": f"env{e}",
+                            "what": s.choice(["many_payloads", "long_invalid_sequence", "many_components"])})
             for _ in range(s.randint(1, 3)):
                 ops.append({"kind": "rot_cli", "i": len(ops), "env": f"env{e}", "gen": s.u64() % (1 << 48),
                             "fmt": s.choice(["yaml", "json"]), "hier": s.chance(0.5),
@@ -175,6 +181,8 @@ class Corrupt(Machine):
             return self._sweep(host, model, dict(op, family="single"))
         if k == "rot_cli":
             return self._rot_cli(host, model, op)
+        if k == "growth_scaling":
+            return self._growth_scaling(host, model, op)
         return []
 
     def _make_env(self, host, model, op):
@@ -428,6 +436,89 @@ class Corrupt(Machine):
                                   f"(ratio {r:.2f}; 2 for a linear parser, 4 for a quadratic one)", cls="steps")
                     v["rot"] = {"k": "nest_seq", "path": path, "how": how, "depth": 40}
                     return [v]
+        return []
+
+    # -- growth in the size dimension, judged on CPU time --------------------------------------------------------------
+    GROWTH_N = {"many_payloads": (4000, 8000, 16000), "long_invalid_sequence": (100000, 200000, 400000),
+                "many_components": (3000, 6000, 12000)}
+
+    @staticmethod
+    def _grown(data, what, n):
+        """A well-formed envelope with one structure made n entries long (the rest is the stored envelope)."""
+        v = cborr.parse(data)
+        m = v.children[0]
+        if what == "many_payloads":
+            pairs = b"".join(k.raw + val.raw for k, val in m.children) + b"".join(
+                cborr.enc("k%d" % i) + b"\x40" for i in range(n))
+            return cborr._enc_head(6, 107) + cborr._enc_head(5, len(m.children) + n) + pairs
+        t = rot.build(data)
+        if what == "long_invalid_sequence":
+            seqs = rot.sequence_paths(t)
+            if not seqs:
+                return None
+            # n items that no command table knows: grouping happens, then the first pair is refused
+            seq = cborr._enc_head(4, n) + b"\x18\xfe" * n
+            return rot.replace_node(t, seqs[0], cborr.enc(seq))
+        if what == "many_components":
+            # suit-common / suit-components: find an array of arrays inside the manifest
+            for p in rot.paths(t):
+                node = rot._at(t, p)
+                if node.kind == "arr" and node.children and all(c.kind == "arr" for c in node.children) and len(p) >= 4:
+                    one = rot.ser(node.children[0])
+                    return rot.replace_node(t, p, cborr._enc_head(4, n) + one * n)
+        return None
+
+    def _growth_scaling(self, host, model, op):
+        """'Time proportional to the input size' along the size dimension: one structure is made n, 2n and 4n entries
+        long.  Work done below the interpreter (list and dict operations in C) does not show in line events, so this
+        oracle uses the process's CPU time - not the wall clock - and a wide margin: linear growth gives t(4n)/t(n) = 4,
+        quadratic 16; a violation needs t(4n)/t(n) >= 9, t(4n)/t(2n) >= 2.8 *and* at least one CPU second for the largest
+        input."""
+        import time as _t
+
+        name = op["env"]
+        if name not in model["envs"]:
+            return []
+        data = model["envs"][name]
+        ex = model["_extra"]
+        times = []
+        cpu = _t.process_time  # captured before the seam replaces time.* (process_time is not replaced anyway)
+        with Seams(host.disk, host.entropy, host.clock, host.fast_stack, False, host.rare):
+            from suit_generator.suit.envelope import SuitEnvelopeTagged
+
+            for n in self.GROWTH_N[op["what"]]:
+                bad = self._grown(data, op["what"], n)
+                if bad is None:
+                    model["_abstract"] = ("growth_scaling", op["what"], "n/a")
+                    return []
+                gc_was = __import__("gc").isenabled()
+                t0 = cpu()
+                try:
+                    SuitEnvelopeTagged.from_cbor(bad).to_obj()
+                except BaseException as e:  # noqa: B036 - type is judged by the sweeps
+                    if isinstance(e, KeyboardInterrupt):
+                        raise
+                times.append((n, len(bad), cpu() - t0))
+                if times[-1][2] > 60:
+                    break
+        host.op_index += 1
+        ex["growth_scaling_probes"] = ex.get("growth_scaling_probes", 0) + 1
+        ex["damaged_parses"] += len(times)
+        host.log_line({"op": host.op_index, "kind": "growth_scaling", "what": op["what"], "n": [t[0] for t in times]})
+        model["_last_outcome"] = "measured"
+        model["_abstract"] = ("growth_scaling", op["what"])
+        model["_nontrivial"] = True
+        t1, t4 = times[0][2], times[-1][2]
+        if len(times) == 3 and t1 > 0.01:
+            r = t4 / t1
+            if r > ex.get("max_cpu_ratio_4n_over_n", 0):
+                ex["max_cpu_ratio_4n_over_n"] = round(r, 2)
+        t2 = times[1][2] if len(times) == 3 else t1
+        if t4 >= 1.0 and (len(times) < 3 or (t4 / max(t1, 0.01) >= 9.0 and t4 / max(t2, 0.01) >= 2.8)):
+            return [violation("C17", "time-proportional-to-input", op["i"],
+                              f"{op['what']}: CPU seconds {[(n, ln, round(t, 2)) for n, ln, t in times]} for n / bytes - "
+                              f"quadrupling the input multiplies the time by {t4 / max(t1, 0.01):.1f} (4 for a linear parser)",
+                              cls="cpu-time")]
         return []
 
     def _rot_cli(self, host, model, op):
